@@ -33,7 +33,19 @@ impl SO2State {
     /// ```
     pub fn new(val: f64) -> Self {
         SO2State {
-            value: (val + PI).rem_euclid(2.0 * PI) - PI,
+            value: Self::wrap(val),
+        }
+    }
+
+    /// Wraps an angle into `[-PI, PI)`.
+    fn wrap(val: f64) -> f64 {
+        let wrapped = (val + PI).rem_euclid(2.0 * PI) - PI;
+        // For an argument a hair below -PI, `rem_euclid` rounds up to 2*PI and the result would be
+        // +PI, outside the half-open range: +PI and -PI are the same angle.
+        if wrapped >= PI {
+            -PI
+        } else {
+            wrapped
         }
     }
 
@@ -54,7 +66,7 @@ impl SO2State {
     /// ```
     pub fn normalise(&mut self) -> Self {
         SO2State {
-            value: (self.value + PI).rem_euclid(2.0 * PI) - PI,
+            value: Self::wrap(self.value),
         }
     }
 }
